@@ -448,7 +448,11 @@ class FnExec:
                 if isinstance(a.t, SetT): return a
             if nm == "range" and len(n.args) == 3:
                 lo, hi, stp = [self.expr(x, st, pc).z for x in n.args]
-                if self.mode != "spec": self.branch_exc(pc, stp == 0, "ValueError", n)
+                if self.mode != "spec":
+                    # the model below (element q = lo + q*step, opaque length) is used for POSITIVE steps only; a step that the path condition does not force to be >= 1
+                    # (a count-down range, say) leaves the subset
+                    chk = z3.Solver(); chk.set("timeout", 2000); chk.add(*[c for c in pc if not z3.is_quantifier(c)]); chk.add(stp < 1)
+                    if chk.check() != z3.unsat: raise Unsupported("range(lo, hi, step) with a step not known to be positive")
                 opq = getattr(self.spec, "opaque_arith", False) == "all"; rname = "py_range3_opaque" if opq else "py_range3"
                 LI = ListT(INT); RF = z3.Function(rname, z3.IntSort(), z3.IntSort(), z3.IntSort(), LI.sort())
                 if rname not in self.th.funcs:      # range(lo, hi, step): the q-th element is lo + q*step; its length is left as an opaque non-negative function of the three bounds
@@ -550,6 +554,8 @@ class FnExec:
         if "self" in changed and recv[0] is not None: self.write_path(st, recv[0], recv[1], post.env["self"])
         if ctor: return post.env["self"]
         self.assumptions.add(f"modular call: {qual} used through its contract")
+        if not hasattr(self.th, "callees"): self.th.callees = {}
+        self.th.callees.setdefault(self.qual, set()).add(qual)      # who relies on whose contract (a caller's failed obligation is not a verdict while the callee itself is undecided)
         return res
 
     # ------------------------------------------------------------------ spec forms
@@ -883,6 +889,7 @@ class FnExec:
             if r is not None: return r
         it = s.iter
         if isinstance(it, ast.Call) and isinstance(it.func, ast.Name) and it.func.id == "range":
+            if len(it.args) not in (1, 2) or it.keywords: raise Unsupported("for over range(lo, hi, step)")      # (a step was silently ignored here once: found by an independently written edit)
             a = [self.expr(x, st, pc).z for x in it.args]
             lo, hi = (z3.IntVal(0), a[0]) if len(a) == 1 else (a[0], a[1])
             def bind(state, g): self.assign(s.target, Val(INT, g["IT"]), state, [])
